@@ -97,6 +97,10 @@ def body(t, src, deps, prods, beh, ret=None):
     if beh == "late":
         log(f"X {t}")
         raise RuntimeError(f"task {t} fails late")
+    if beh.startswith("deldep:"):
+        # the body consumes (deletes) one of its own dependency files after writing its products
+        log(f"D {t}")
+        Path(deps[int(beh.split(":")[1])]).unlink()
     log(f"E {t}")
 '''
 
@@ -176,6 +180,10 @@ def render_module(spec, m: int, src_value=None) -> str:
         beh = t.get("beh", "ok")
         setup_fault = t.get("setup_fault")          # optional: "state" | "hash" | "marker" (C08 campaign)
         body_beh = "ok" if beh in ("loadfail", "savefail") else beh
+        if beh == "deldep":                         # optional (C08 campaign): delete dependency t["faulty_dep"] after writing
+            body_beh = f"deldep:{deps.index(t['faulty_dep'])}"
+            if style == "return":
+                style = "default"
         faulty_dep = t.get("faulty_dep", deps[0]) if deps and (beh == "loadfail" or setup_fault == "state") else None
         if faulty_dep is not None or setup_fault == "hash":
             style = "annotated"
@@ -345,7 +353,9 @@ def model_lines(spec):
         if "persist" in marks:
             flags.append("persist")
         prio = 1 if "try_first" in marks else (-1 if "try_last" in marks else 0)
-        beh = {"sysexit": "early"}.get(t.get("beh", "ok"), t.get("beh", "ok"))
+        # "deldep" (body deletes a private dependency after writing its products): with the F29 repair the task fails in
+        # teardown = writes everything, then raises; the harness removes the file from the model's world after the build
+        beh = {"sysexit": "early", "deldep": "late"}.get(t.get("beh", "ok"), t.get("beh", "ok"))
         deps = list(t["deps"])
         if t.get("setup_fault"):
             # a node whose state()/hash raises, or a marker whose evaluation raises, in setup = a private dependency
